@@ -996,3 +996,52 @@ def bulk_changes_own_rows(ctx):
 
 from . import c09 as _c09
 PROP.obligation('C08.scope-forwarding')(_c09.scope_forwarding)
+
+
+@PROP.obligation('C08.delete-keeps-spent', canaries=[
+    mut.replace_expr(W, 'WalletTransaction.delete', 'DbTransactionInput.transaction_id != tx.id', 'DbTransactionInput.transaction_id == tx.id', 'the "spent elsewhere" test of delete() finds the inputs of the deleted transaction itself'),
+    mut.replace_expr(W, 'WalletTransaction.delete', 'not spent_elsewhere', 'True', 'outputs spent by a deleted transaction are always unspent again'),
+])
+def delete_keeps_spent(ctx):
+    """"An output consumed by a transaction the wallet has sent is never listed as unspent or selected again": WalletTransaction.delete
+    gives the outputs its inputs had consumed back (spent = False) only when no OTHER stored transaction of the wallet spends the same
+    outpoint - the replacement of a fee-bumped transaction, for one. The assignment `.spent = False` in delete() is guarded by a query on
+    DbTransactionInput that selects by the outpoint (prev_txid and output_n) and EXCLUDES the inputs of the transaction being deleted
+    (transaction_id != its id); a test that finds the deleted transaction's own inputs is always true."""
+    q = W + ':WalletTransaction.delete'
+    fn = ctx.repo.func(q)
+    g = build_cfg(fn)
+    resets = [nd for nd in g.nodes if nd.ast is not None and isinstance(nd.ast, ast.Assign) and any(isinstance(t, ast.Attribute) and t.attr == 'spent' for t in nd.ast.targets) and
+              isinstance(nd.ast.value, ast.Constant) and nd.ast.value.value is False]
+    if not resets:
+        ctx.undecided('WalletTransaction.delete: no assignment `.spent = False` found')
+    queries = {}
+    for a in walk_no_nested(fn):
+        if isinstance(a, ast.Assign) and len(a.targets) == 1 and isinstance(a.targets[0], ast.Name):
+            qs = parse_chain(a.value)
+            if qs is not None and qs.models:
+                queries[a.targets[0].id] = qs
+    n = 0
+    for nd in resets:
+        n += 1
+        ok = False
+        seen_guards = []
+        for t, pol in guards_of(g, nd.id):
+            test = g[t].ast
+            seen_guards.append(norm(test)[:60])
+            cands = []
+            for x in ast.walk(test):
+                if isinstance(x, ast.Name) and x.id in queries:
+                    cands.append((queries[x.id], pol == 'F' or (isinstance(test, ast.UnaryOp) and isinstance(test.op, ast.Not) and pol == 'T')))
+                if isinstance(x, ast.Call):
+                    qs = parse_chain(x)
+                    if qs is not None and qs.models:
+                        cands.append((qs, pol == 'F'))
+            for qs, negated in cands:
+                preds = ' '.join(qs.filters) + ' ' + ' '.join('%s=%s' % kv for kv in qs.filter_by.items())
+                if 'DbTransactionInput' in ' '.join(qs.models) and 'prev_txid' in preds and 'output_n' in preds and 'transaction_id !=' in preds and negated:
+                    ok = True
+        ctx.saw('`%s` is guarded by %s; guarded by "no other input spends this outpoint": %s' % (norm(nd.ast), seen_guards, ok))
+        ctx.require(ok, q, '`%s` is not guarded by a query for ANOTHER input of the wallet that spends the same outpoint (prev_txid, output_n, transaction_id != the deleted one)' % norm(nd.ast), nd.ast,
+                    'a fee-bumped transaction and its replacement are both stored; deleting the old one lists their common input as unspent again although the replacement spends it: it is selected for the next payment')
+    ctx.floor(n, 1, 'spent flags reset by delete()')
